@@ -58,7 +58,34 @@ fn pair(d: &mut Draw) -> ([f64; 4], [f64; 4], &'static str) {
     let p = fnormalize4(&comb4(&g, 1.0, &a, -dot4(&g, &a)));
     let flip = if d.bool() { 1.0 } else { -1.0 };
     let mk = |om: f64| fnormalize4(&comb4(&a, om.cos() * flip, &p, om.sin() * flip));
-    match d.int(0, 11) {
+    match d.int(0, 12) {
+        12 => {
+            // exactly orthogonal by structure: disjoint supports, zeros of either sign (basis quaternions included);
+            // every product a_i b_i is a zero, so a.b = 0 in any evaluation order and "a.b >= 0" holds exactly
+            let mask = d.int(1, 14) as usize;
+            let (mut x, mut y) = ([0.0f64; 4], [0.0f64; 4]);
+            for i in 0..4 {
+                let z = if d.bool() { 0.0 } else { -0.0 };
+                let val = if d.chance(1, 3) { if d.bool() { 1.0 } else { -1.0 } } else { d.f64_in(-1.0, 1.0) };
+                if mask >> i & 1 == 1 {
+                    x[i] = val;
+                    y[i] = z;
+                } else {
+                    x[i] = z;
+                    y[i] = val;
+                }
+            }
+            if norm4(&x) == 0.0 || norm4(&y) == 0.0 {
+                (a, p, "orthogonal")
+            } else {
+                let (nx, ny) = (norm4(&x), norm4(&y));
+                for i in 0..4 {
+                    x[i] /= nx;
+                    y[i] /= ny;
+                }
+                (x, y, "orthogonal-disjoint-support")
+            }
+        }
         0..=2 => (a, f_unit_quat(d), "generic"),
         3 | 4 => (a, mk(d.f64_log(1e-9, 0.05)), if flip > 0.0 { "nearly-parallel" } else { "nearly-opposite" }),
         5 | 6 | 7 => {
@@ -144,7 +171,10 @@ fn interp_f64(d: &mut Draw) -> Outcome {
     let (qa, qb) = (mk_q(&a), mk_q(&b));
     let neg = [-b[0], -b[1], -b[2], -b[3]];
     // when a.b is within rounding of 0 the two arcs are equally short: accept either target
-    let targets: Vec<[f64; 4]> = if raw.abs() <= 1e-12 { vec![b, neg] } else if raw >= 0.0 { vec![b] } else { vec![neg] };
+    // (unless the dot product is zero by structure - every product a_i b_i vanishes - in which case a.b >= 0 holds
+    // exactly and the statement names b)
+    let structurally_zero = (0..4).all(|i| a[i] * b[i] == 0.0);
+    let targets: Vec<[f64; 4]> = if structurally_zero { vec![b] } else if raw.abs() <= 1e-12 { vec![b, neg] } else if raw >= 0.0 { vec![b] } else { vec![neg] };
     for (slerp, who) in [(false, "nlerp"), (true, "slerp")] {
         let r: Quaternion<f64> = if slerp { qa.slerp(qb, t) } else { qa.nlerp(qb, t) };
         let rr = rq(&r);
@@ -190,7 +220,7 @@ pub fn property() -> Property {
     add!("lerp-Q", "Q", lerp_all::<Q>, 3000, 200_000, 360, &[("interior-or-extrapolating", 500)], "t not in {0,1}");
     add!("lerp-Fp", "Fp", lerp_all::<Fp>, 3000, 200_000, 360, &[("interior-or-extrapolating", 500)], "t not in {0,1}");
     add!("nlerp_slerp-f64", "f64", interp_f64, 20000, 1_000_000, 80,
-        &[("generic+", 50), ("generic-", 50), ("generic-endpoint", 30), ("nearly-parallel", 30), ("nearly-opposite", 30), ("hand-over+", 50), ("hand-over-", 50), ("orthogonal", 30), ("equal", 15), ("exactly-opposite", 15)],
+        &[("generic+", 50), ("generic-", 50), ("generic-endpoint", 30), ("nearly-parallel", 30), ("nearly-opposite", 30), ("hand-over+", 50), ("hand-over-", 50), ("orthogonal", 30), ("orthogonal-disjoint-support", 30), ("equal", 15), ("exactly-opposite", 15)],
         "every generated pair; all pair classes, both signs of a.b and both endpoints required");
     Property {
         id: "C14",
